@@ -632,12 +632,27 @@ def _seed_source(body):
     return f"{pre}def {FUNC}({', '.join(PARAMS)}):\n{IND}x = 0\n" + "\n".join(IND + ln for ln in rest) + "\n"
 
 
+# Whole sources (not wrapped in "x = 0 ... "): functions whose LAST executed line is also the FIRST line of
+# the next call (one-line bodies, body on the def line, a one-line loop, a one-line raise) - consecutive
+# executions on one tracer then begin where the previous one ended.
+_RAW_SEEDS = [
+    ("oneline-return", "return compare", "def f(a, b):\n    return a < b\n"),
+    ("body-on-def-line", "return if", "def f(a, b): return a if a else b\n"),
+    ("oneline-loop", "while", "def f(a, b):\n    while a is True: a = False\n"),
+    ("oneline-raise", "raise call", "def f(a, b):\n    raise ValueError(a)\n"),
+    ("oneline-for", "for call", "def f(a, b):\n    for v in range(2): b = v\n"),
+]
+
+
 def seeds():
     """Fixed list of hand-written executable "one construct each" programs (f(a, b), always terminate)."""
     out = []
     for label, tags, body in _SEEDS:
         src = _seed_source(body)
         meta = _meta("seed", tags.split(), src.count("\n"), None, body.split("\n"))
+        out.append((f"seed_{label.replace('-', '_')}", src, meta))
+    for label, tags, src in _RAW_SEEDS:
+        meta = _meta("seed", tags.split(), src.count("\n"), None, src.split("\n"))
         out.append((f"seed_{label.replace('-', '_')}", src, meta))
     return out
 
@@ -791,7 +806,9 @@ _INT = ["0", "1", "2", "-1"]
 _MENUS = {
     # small: ints cover all comparison outcomes; None for `is None`; one str pair; one container
     "small": [("0", "0"), ("0", "1"), ("1", "0"), ("1", "1"), ("2", "1"), ("None", "0"), ("1", "None"),
-              ("'ab'", "'a'"), ("1", "[1, 2]"), ("0", "[]")],
+              ("'ab'", "'a'"), ("1", "[1, 2]"), ("0", "[]"),
+              # almost-equal / almost-zero numbers: the not-taken outcome has a tiny positive distance
+              ("0.1 + 0.2", "0.3"), ("5e-324", "0")],
     "full": None,
 }
 _FULL_VALUES = _INT + ["None", "True", "1.5", "''", "'a'", "'ab'", "'7'", "[]", "[1, 2]", "(0,)", "{'k': 1}", "[1, 'a']"]
@@ -800,7 +817,7 @@ _FULL_VALUES = _INT + ["None", "True", "1.5", "''", "'a'", "'ab'", "'7'", "[]", 
 def input_menu_src(meta=None, size="small"):
     """Argument tuples as source strings ``(a_src, b_src)`` (evaluate them to get fresh objects).
 
-    ``small``: 10 pairs (int outcomes of every comparison, None, str, container).  ``full``: the full
+    ``small``: 12 pairs (int outcomes of every comparison, None, str, container).  ``full``: the full
     product over 16 values (256 pairs).  With ``meta`` the menu is narrowed to what the program's
     constructs can distinguish (e.g. no str inputs unless the program has a string predicate)."""
     if size == "full":
